@@ -443,6 +443,8 @@ def run(ctx) -> None:
     ctx.guard(r08_5)
     ctx.guard(r17_3)  # R08.6
     ctx.guard(r04_3)  # R08.7
+    from .c04 import r04_18
+    ctx.guard_as("R08.15", r04_18)  # an empty ciphertext / encrypted key of a foreign token is read, not refused
     ctx.guard(r08_8)
     ctx.note("R08.2 (consume), R08.6 and R08.7 reuse the C02 / C17 / C04 rule implementations and keep their rule ids")
     ctx.note("undecided remainder: decryption of every joserfc token under an independent implementation and vice versa needs an oracle implementation")
